@@ -269,7 +269,7 @@ theorem setMut_preservesF (E : Env) (st : St) (regs : List Reg) (c : Id) (items 
       (maintCont (st.h.upd c (.set items')) g k ev H').H.get (.cont c) = H'.get (.cont c) :=
     fun mk g k hm H' => maintCont_frame _ g k ev (.cont c) H' (fr.nsrLive mk g k hm)
   have heq := notifyCont_eq_callCont E (st.h.upd c (.set items')) c ev (st.H.get (.cont c)) hfr
-    ((st.H.get (.cont c)).length + 64) 0 st.H [] rfl (by omega)
+    ((st.H.get (.cont c)).length + 4096) 0 st.H [] rfl (by omega)
   simp only [runCont, heq, List.drop_zero]
   have hl : LoopOkC E (st.h.upd c (.set items')) ev (st.H.get (.cont c)) :=
     { alive := fr.alive, okRem := fr.okRem, okAdd := fr.okAdd }
@@ -592,7 +592,7 @@ theorem dictMut_preservesF (E : Env) (st : St) (regs : List Reg) (c : Id) (items
       (maintCont (st.h.upd c (.dict items')) g k ev H').H.get (.cont c) = H'.get (.cont c) :=
     fun mk g k hm H' => maintCont_frame _ g k ev (.cont c) H' (fr.nsrLive mk g k hm)
   have heq := notifyCont_eq_callCont E (st.h.upd c (.dict items')) c ev (st.H.get (.cont c)) hfr
-    ((st.H.get (.cont c)).length + 64) 0 st.H [] rfl (by omega)
+    ((st.H.get (.cont c)).length + 4096) 0 st.H [] rfl (by omega)
   simp only [runCont, heq, List.drop_zero]
   have hl : LoopOkC E (st.h.upd c (.dict items')) ev (st.H.get (.cont c)) :=
     { alive := fr.alive, okRem := fr.okRem, okAdd := fr.okAdd }
